@@ -3,6 +3,7 @@ mod sched;
 mod world;
 mod c01;
 mod c03;
+mod c04;
 mod c06;
 mod reg;
 mod c14;
@@ -45,6 +46,7 @@ fn main() {
     "C01" => c01::run(tier, seed),
     "C02" => c15::run_c02(tier, seed),
     "C03" => c03::run(tier, seed),
+    "C04" => c04::run(tier, seed),
     "C06" => c06::run(tier, seed),
     "C07" => reg::run_c07(tier, seed),
     "C14" => c14::run(tier, seed),
